@@ -94,6 +94,9 @@ fn composite_types(s: &Schema) -> Vec<String> {
 }
 
 fn overlap(s: &Schema, a: &str, b: &str) -> bool {
+    if a == b {
+        return true;
+    }
     let pa = s.possible(a);
     let pb = s.possible(b);
     pa.iter().any(|x| pb.contains(x))
